@@ -17,7 +17,7 @@ def configs(tier):
     cs = []
     def add(sp, script, param='', **kw):
         name = short(sp) + '-' + script + ('-' + param if param else '')
-        if script in ('refine', 'construct', 'construct1'): kw.setdefault('strategy', 'tree'); kw.setdefault('solver_timeout_ms', 5000); kw.setdefault('max_paths', 6)
+        if script in ('refine', 'construct', 'construct1'): kw.setdefault('strategy', 'tree'); kw.setdefault('solver_timeout_ms', 2000); kw.setdefault('max_paths', 6); kw.setdefault('time_budget_s', 40 if tier == 'quick' else 240)
         cs.append(Config(name, 'C01', [sp, script] + ([param] if param else []), **kw))
     if tier == 'quick':
         add(spec('localp', 'localp', 2, 1, 3, order=1), 'load')
